@@ -331,6 +331,77 @@ func init() {
 					}
 				},
 			},
+			{
+				// A segment whose measured length is a few ulps of the length walked before it, while its coordinates
+				// are far apart: 180 against -180 on one parallel under haversine measures about 1e-9 m (geo.Distance:
+				// exactly 0). The walk compares targets with a rounded running sum there, and a sample aimed at the
+				// turning vertex of an out-and-back line lands on exactly such a segment. (The thorough tier found the
+				// library leaving the line here - repair 1568688 - in 3 of 80 million random cases; this drives it always.)
+				Name: "segments-of-a-few-ulps", Count: h.Fixed(6000, 1000000),
+				Run: func(c *h.Ctx, idx uint64, r *h.Rand) {
+					dfi := dfs[2]
+					if r.P(1, 5) {
+						dfi = dfs[1]
+					}
+					spell := func() float64 { return []float64{-180, 180}[r.Intn(2)] }
+					lat1 := float64(r.Range(-80, 80))
+					lat2 := float64(r.Range(-80, 80))
+					if lat2 == lat1 {
+						lat2 = lat1 + 7
+					}
+					lon0 := spell()
+					if r.Bool() {
+						lon0 = float64(r.Range(-179, 179))
+					}
+					cur := spell()
+					in := orb.LineString{{lon0, lat1}, {cur, lat2}}
+					for f := r.Range(1, 3); f > 0; f-- {
+						cur = -cur
+						in = append(in, orb.Point{cur, lat2})
+					}
+					if r.Bool() {
+						in = append(in, orb.Point{lon0, lat1}) // back again: the turning vertex is the middle of the length
+					} else {
+						in = append(in, orb.Point{spell(), float64(r.Range(-80, 80))})
+					}
+					total, d := c17total(in, dfi.f)
+					if !(total > 0) {
+						return
+					}
+					n := 2*r.Range(1, 40) + 1
+					if r.P(1, 4) { // a count that puts a sample at the first leg's end: total/d[0] steps, when that is whole
+						if q := total / d[0]; q == math.Floor(q) && q < 200 {
+							n = int(q) + 1
+						}
+					}
+					c.Count("tiny_measured_segments_driven", 1)
+					cs := c17case{sv(in), dfi.name, n, 0}
+					c.Note([]byte(sv(cs)))
+					var out orb.LineString
+					if pv, stack := h.Catch(func() { out = resample.Resample(cloneLS(in), dfi.f, n) }); pv != nil {
+						c.Fail("", "Resample panicked", map[string]interface{}{"case": cs, "panic": sv(pv), "stack": stack})
+						return
+					}
+					c.Eval()
+					c17judge(c, cs, in, out, dfi.f, n)
+					c.Nontrivial(h.Mix(hashPts(in), uint64(n), h.HashString(dfi.name)))
+					dd := total / float64(n-1)
+					if r.Bool() {
+						dd = math.Nextafter(dd, 0)
+					}
+					cs = c17case{sv(in), dfi.name, 0, dd}
+					c.Note([]byte(sv(cs)))
+					out = nil
+					if pv, stack := h.Catch(func() { out = resample.ToInterval(cloneLS(in), dfi.f, dd) }); pv != nil {
+						c.Fail("", "ToInterval panicked", map[string]interface{}{"case": cs, "panic": sv(pv), "stack": stack})
+						return
+					}
+					c.Eval()
+					want := int(math.Floor(total/dd)) + 1
+					cs.N = want
+					c17judge(c, cs, in, out, dfi.f, want)
+				},
+			},
 		},
 	})
 }
